@@ -567,4 +567,104 @@ theorem no_trace (d : Document) (o : Opts) (vc : Bool) (hm : d.settings.singleSe
   | ok ls =>
     simp only [Except.map, noBlank_append, topLevel_drop]
 
+/-! #### partial mode -/
+
+/-- the document with other segment and top-level lists. -/
+def listsDoc (d : Document) (S : List Segment) (A : List SymbolAssignment) (Rq : List RequiredSymbol) (T : List AssertEntry) : Document :=
+  { d with segments := S, symbolAssignments := A, requiredSymbols := Rq, asserts := T }
+
+theorem dropFiles_newObject (o : Opts) (p : Str) : dropFiles o [FileInfo.newObject p] = [FileInfo.newObject p] := by
+  unfold dropFiles FileInfo.newObject
+  simp [FileInfo.cond, shouldEmit, dropFile, dropFiles]
+
+theorem partialSegment_dropSeg (o : Opts) (folder : Str) (seg : Segment) :
+    partialSegment folder (dropSeg o seg) = dropSeg o (partialSegment folder seg) := by
+  unfold partialSegment dropSeg
+  simp only [dropFiles_newObject]
+
+theorem partialSegments_drop (d : Document) (o : Opts) (vc : Bool) (folder : Str)
+    (S : List Segment) (A : List SymbolAssignment) (Rq : List RequiredSymbol) (T : List AssertEntry) :
+    ∀ (l : List Segment) (em : List Str),
+      partialSegments (listsDoc d S A Rq T) o vc folder escapePath em
+          ((l.filter fun s => shouldEmit o s.cond).map (dropSeg o))
+        = partialSegments d o vc folder escapePath em l := by
+  intro l
+  induction l with
+  | nil => intro em; rfl
+  | cons a as ih =>
+    intro em
+    by_cases ha : shouldEmit o a.cond = true
+    · simp only [List.filter_cons, ha, if_true, List.map_cons]
+      unfold partialSegments
+      have hc : shouldEmit o (dropSeg o a).cond = true := ha
+      simp only [hc, ha, Bool.not_true, Bool.false_eq_true, if_false]
+      have h1 : addSingleSegment { d := listsDoc d S A Rq T, o := o, emitKindSyms := false, emitSecSyms := false, esc := escapePath } (dropSeg o a)
+          = addSingleSegment { d := d, o := o, emitKindSyms := false, emitSecSyms := false, esc := escapePath } a :=
+        (addSingleSegment_lists { d := d, o := o, emitKindSyms := false, emitSecSyms := false, esc := escapePath } S A Rq T _).trans
+          (addSingleSegment_dropSeg { d := d, o := o, emitKindSyms := false, emitSecSyms := false, esc := escapePath } a)
+      have h2 : ∀ em, addSegment { d := listsDoc d S A Rq T, o := o, refPartial := true, esc := escapePath } em (partialSegment folder (dropSeg o a))
+          = addSegment { d := d, o := o, refPartial := true, esc := escapePath } em (partialSegment folder a) := by
+        intro em
+        rw [partialSegment_dropSeg]
+        exact (addSegment_lists { d := d, o := o, refPartial := true, esc := escapePath } S A Rq T _ em).trans
+          (addSegment_dropSeg { d := d, o := o, refPartial := true, esc := escapePath } _ em)
+      simp only [h1, h2, ih]
+      rfl
+    · have hf : shouldEmit o a.cond = false := by
+        cases hh : shouldEmit o a.cond
+        · rfl
+        · exact absurd hh ha
+      simp only [List.filter_cons, hf, Bool.false_eq_true, if_false]
+      rw [ih]
+      conv => rhs; unfold partialSegments
+      simp [hf]
+
+/-- **C06, "an excluded entry leaves no trace" (partial linking)**: the main script of the
+pruned document equals that of the document up to empty lines, and the per-segment partial
+scripts are the same — one per included segment, none for an excluded one. -/
+theorem no_trace_partial (d : Document) (o : Opts) (vc : Bool) :
+    (generatePartial (dropDoc o d) o vc).map (fun po => (noBlank po.main, po.partials))
+      = (generatePartial d o vc).map (fun po => (noBlank po.main, po.partials)) := by
+  unfold generatePartial
+  have hs : (dropDoc o d).settings = d.settings := rfl
+  rw [hs]
+  cases hf : d.settings.partialBuildSegmentsFolder with
+  | none => rfl
+  | some folder =>
+    simp only []
+    have h := partialSegments_drop d o vc folder ((d.segments.filter fun s => shouldEmit o s.cond).map (dropSeg o))
+      (d.symbolAssignments.filter fun a => shouldEmit o a.cond) (d.requiredSymbols.filter fun a => shouldEmit o a.cond)
+      (d.asserts.filter fun a => shouldEmit o a.cond) d.segments []
+    have h' : partialSegments (dropDoc o d) o vc folder escapePath [] (dropDoc o d).segments
+        = partialSegments d o vc folder escapePath [] d.segments := h
+    rw [h']
+    cases partialSegments d o vc folder escapePath [] d.segments with
+    | error e => rfl
+    | ok r =>
+      obtain ⟨ls, emitted, ps⟩ := r
+      simp only [Except.map, noBlank_append, topLevel_drop]
+      rfl
+
+/-- empty lines carry no linker symbol and no file path: scripts that agree up to empty lines
+have the same header and the same dependency file. -/
+theorem same_header_and_deps (l₁ l₂ : List Line) (h : noBlank l₁ = noBlank l₂) :
+    linkerSymbols l₁ = linkerSymbols l₂ ∧ filesPaths l₁ = filesPaths l₂ := by
+  have key : ∀ (f : Line → Option Str), f .blank = none → ∀ l : List Line, (noBlank l).filterMap f = l.filterMap f := by
+    intro f hf l
+    induction l with
+    | nil => rfl
+    | cons a as ih =>
+      by_cases ha : a = .blank
+      · subst ha
+        simp only [noBlank, List.filter_cons, ne_eq, not_true_eq_false, decide_false, Bool.false_eq_true, if_false,
+          List.filterMap_cons, hf]
+        exact ih
+      · simp only [noBlank, List.filter_cons, ne_eq, ha, not_false_eq_true, decide_true, if_true, List.filterMap_cons]
+        cases f a with
+        | none => exact ih
+        | some x => simp only [List.cons.injEq, true_and]; exact ih
+  unfold linkerSymbols filesPaths
+  rw [← key Line.linkerSym? rfl l₁, ← key Line.linkerSym? rfl l₂, ← key Line.inputPath? rfl l₁, ← key Line.inputPath? rfl l₂, h]
+  exact ⟨rfl, rfl⟩
+
 end Slinky.C06
